@@ -3,7 +3,7 @@ use c05::forms::{self, CaseB};
 use c05::rec::FilterSpec;
 use vcore::proptest::prelude::*;
 
-const RULE: &str = "Domain A (api-sequences): a SpanGuard built by SpanGuard::new with a GENERATED FILTER (accept-all, reject-all, min-level L, accepts-only-events-without-extent, accepts-only-the-first-n-evaluations, rejects-events-carrying-err, keyed on the template text) is held at one fixed erased type and driven by a generated sequence of 0..=10 operations (with_mdl, with_name, with_props, map_props append/prepend, with_completion(k), start) followed by a terminal (complete, complete_with(k), drop, drop while unwinding), inside or outside its frame, over a scripted clock (one entry per now() call: small/large/backwards/repeated/unavailable readings) and a counter or unavailable rng; a completion k is a recording custom completion, emit's completion::Default, or the Result-aware Ok/Err completions the span macros hand to complete_with, over an explicit runtime whose filter is the case's filter. Domain B (macro-forms): 19 fixed call sites compiled with the real macros (span/debug_/info_/warn_/error_span on sync and async fns, guard parameter, ok_lvl/err_lvl/err/panic_lvl, mdl, new_info_span!, and four sites with a call-site when: filter) against an explicit runtime, with generated runtime filter and when: filter (same kinds as above), clock, rng and exit path (fallthrough, early return, return Err, ? on Err, tail Err, panic, cancelled future, explicit complete/complete_with/with_completion/rename/early drop/complete-then-panic through the guard, new_span with 0/1/2 starts). 'Passed the filter' is decided by the deciding filter's verdict on the span's START event only. Non-trivial = (A) at least 2 builder operations including a with_completion, or a span rejected by the filter, or start called more than once, or drop during unwinding; (B) a rejected span or any exit path other than plain fallthrough.";
+const RULE: &str = "Domain A (api-sequences): a SpanGuard built by SpanGuard::new with a GENERATED FILTER (accept-all, reject-all, min-level L, accepts-only-events-without-extent, accepts-only-the-first-n-evaluations, rejects-events-carrying-err, keyed on the template text) is held at one fixed erased type and driven by a generated sequence of 0..=10 operations (with_mdl, with_name, with_props, map_props append/prepend, with_completion(k), start) followed by a terminal (complete, complete_with(k), drop, drop while unwinding), inside or outside its frame, over a scripted clock (one entry per now() call: small/large/backwards/repeated/unavailable readings) and a counter or unavailable rng; a completion k is a recording custom completion, emit's completion::Default (built by completion::default(..) or Default::new(..) followed by a GENERATED SEQUENCE of builder calls with_lvl(L) / with_panic_lvl(P) / with_tpl(T), each 0..=2 times in any order), or the Result-aware Ok/Err completions the span macros hand to complete_with, over an explicit runtime whose filter is the case's filter. Domain B (macro-forms): 19 fixed call sites compiled with the real macros (span/debug_/info_/warn_/error_span on sync and async fns, guard parameter, ok_lvl/err_lvl/err/panic_lvl, mdl, new_info_span!, and four sites with a call-site when: filter) against an explicit runtime, with generated runtime filter and when: filter (same kinds as above), clock, rng and exit path (fallthrough, early return, return Err, ? on Err, tail Err, panic, cancelled future, explicit complete/complete_with/with_completion/rename/early drop/complete-then-panic through the guard, new_span with 0/1/2 starts). 'Passed the filter' is decided by the deciding filter's verdict on the span's START event only. Non-trivial = (A) at least 2 builder operations including a with_completion, or a span rejected by the filter, or start called more than once, or drop during unwinding; (B) a rejected span or any exit path other than plain fallthrough.";
 
 fn comp_spec() -> impl Strategy<Value = CompSpec> {
     // 0 custom, 1 emit's default completion, 2 / 3 the macros' Ok / Err completions over the case's runtime
@@ -147,6 +147,7 @@ fn main() {
             "ids: inside its frame the ambient context (and therefore the emitted span event) carries exactly the trace/span id the span was created with (as shown to the filter); spans completed outside their frame (guard run outside frame.call, cancelled futures) are don't-care for ids",
             "whether err is attached when a plain span (no ok_lvl/err_lvl/err) wraps a function returning Err is don't-care",
             "a span is enabled iff the deciding filter (the call-site when: filter if the site has one, else the runtime's filter; the filter given to SpanGuard::new in domain A) accepts the span's START event: the macro's own level (none in domain A), no extent, no err, template \"{span_name} started\"; what any filter would say about the COMPLETION event (its level, extent, err, template, or a later evaluation count) is irrelevant: the completion must arrive exactly once. Consulting a filter again is not itself a violation; a completion that is missing after a filter rejected a later evaluation is reported as completion-filtered-again",
+            "completion::Default builder: the last call of a kind wins and no call resets what another kind set: non-panic exit -> lvl = last with_lvl value (none if never called); unwinding -> lvl = last with_panic_lvl value, else error, with err; template = last with_tpl value, else \"{span_name} completed\"",
             "attribute macros on block expressions need unstable rustc features (stmt_expr_attributes / proc_macro_hygiene) and cannot be compiled by the stable toolchain this harness uses; block forms are therefore not among the call sites (they share inject_sync/inject_async with the fn forms)",
         ],
         |s| {
